@@ -35,5 +35,62 @@ def main(tier, seed):
         r, acc, rej = tracecheck.validate(s, 'RecorderTrace', 'RecorderTrace.cfg', bad)
         print('corrupted traces: %d accepted, %d rejected (all must be rejected)' % (len(acc), len(rej)))
         ok &= not acc and bool(rej)
+    ok &= equalizer_impl_traces()
     print('SELFTEST', 'ok' if ok else 'FAILED')
     return 0 if ok else 2
+
+
+def equalizer_impl_traces():
+    """Implementation-level binding of Equalizer.tla: scheduler logs of real dedicated-process runs are accepted by
+    EqualizerImplTrace; the same logs with one field corrupted (worker started / not started, a verdict) or one event
+    removed (a task taken by a worker, a kill) are rejected."""
+    import logging
+    from . import eqbind, mc
+    from .props import c08
+    logging.disable(logging.CRITICAL)
+    scenarios = [(['equal', 'hangs', 'exits', 'equal'], 2, 4, {}), (['late', 'equal', 'idleExit', 'different'], 2, 4, {1: True}),
+                 (['equal', 'different', 'equal', 'equal'], 3, 4, {}), (['unreadable', 'equal', 'late', 'equal'], 2, 3, {3: False})]
+    good = []
+    for i, (beh, rate, stop, late) in enumerate(scenarios):
+        res = eqbind.run_dedicated(beh, rate, stop, late, False)
+        if res['violations']:
+            print('equalizer run failed:', res['violations'][:1])
+            return False
+        good.append({'id': i + 1, 'beh': beh, 'stop': stop, 'rate': rate, 'events': eqbind.impl_events(res['log'], res['out'])})
+    bad = []
+    for t in good:
+        for kind in ('new', 'take', 'kill', 'verdict'):
+            c = copy.deepcopy(t)
+            ev = c['events']
+            if kind == 'new':
+                k = [j for j, e in enumerate(ev) if e['e'] == 'prepare'][-1]
+                ev[k]['new'] = not ev[k]['new']
+            elif kind == 'take':
+                k = [j for j, e in enumerate(ev) if e['e'] == 'take']
+                del ev[k[0]]
+            elif kind == 'kill':
+                k = [j for j, e in enumerate(ev) if e['e'] == 'kill']
+                if not k:
+                    continue
+                del ev[k[0]]
+            else:
+                v = ev[-1]['verdicts']
+                v[0] = 'Different' if v[0] != 'Different' else 'Equal'
+            c['id'] = 100 * t['id'] + len(bad)
+            bad.append(c)
+    ok = True
+    with tlc.Scratch() as s:
+        for label, traces, want_accept in (('recorded', good, True), ('corrupted', bad, False)):
+            acc_n = rej_n = 0
+            for rate in sorted(set(t['rate'] for t in traces)):
+                grp = [t for t in traces if t['rate'] == rate]
+                name = 'MC_SELF_%s_%d' % (label, rate)
+                mc.write_mc(s, 'EqualizerImplTrace', name,
+                            c08.consts(4, c08.ALL_BEHS + ['unreadable', 'idleExit'], rate, [1, 2, 3, 4]),
+                            invariants=['TraceInv'], spec='TraceSpec', constraints=['Report'])
+                _r, acc, rej = tracecheck.validate(s, name, name + '.cfg', grp)
+                acc_n += len(acc)
+                rej_n += len(rej)
+            print('equalizer scheduler logs (%s): %d accepted, %d rejected' % (label, acc_n, rej_n))
+            ok &= (rej_n == 0) if want_accept else (acc_n == 0 and rej_n > 0)
+    return ok
